@@ -52,6 +52,11 @@ func c15Streams(binary, big bool) []c15Stream {
 	add("quit", o(wire.Cmd{Kind: wire.Quit}))
 	add("pipeline", o(wire.Cmd{Kind: wire.Set, Key: "ka", Value: val}), o(wire.Cmd{Kind: wire.Get, Keys: []string{"ka", "kb"}}), o(wire.Cmd{Kind: wire.Delete, Key: "kb"}), o(wire.Cmd{Kind: wire.Noop}), o(wire.Cmd{Kind: wire.Version}))
 	add("set-then-quit", o(wire.Cmd{Kind: wire.Set, Key: "ka", Value: val}), o(wire.Cmd{Kind: wire.Quit}), o(wire.Cmd{Kind: wire.Set, Key: "ka", Value: []byte("after quit")}))
+	if !binary {
+		// empty and blank lines between and after commands (what a person at a terminal sends)
+		add("blank-line-after-get", wire.Cmd{Kind: wire.Get, Keys: []string{"ka"}}, wire.Cmd{Kind: wire.RawBytes, Raw: []byte("\r\n")})
+		add("blank-lines", wire.Cmd{Kind: wire.RawBytes, Raw: []byte("\r\n")}, wire.Cmd{Kind: wire.RawBytes, Raw: []byte(" \r\n")}, wire.Cmd{Kind: wire.Get, Keys: []string{"ka", "kb"}}, wire.Cmd{Kind: wire.RawBytes, Raw: []byte("\r\n \r")}, wire.Cmd{Kind: wire.RawBytes, Raw: []byte("\n\n")})
+	}
 	if binary {
 		add("gat", o(wire.Cmd{Kind: wire.Gat, Key: "ka", Exptime: 100}))
 		add("quitq", o(wire.Cmd{Kind: wire.Set, Key: "ka", Value: val, Quiet: true}), o(wire.Cmd{Kind: wire.Quit, Quiet: true}), o(wire.Cmd{Kind: wire.Noop}))
